@@ -10,7 +10,11 @@ import traceback
 from pathlib import Path
 
 ROOT = Path(__file__).resolve().parents[1]
-EVIDENCE = ROOT / "evidence"
+# VERIF_REPO / VERIF_EVIDENCE_DIR / VERIF_REPLAYS exist for seed evaluation and background sweeps against a scratch
+# worktree (tools/seed_eval.py --worktree, vp run --with-repo); the registered commands never set them: they check /repo.
+REPO = os.environ.get("VERIF_REPO", "/repo")
+EVIDENCE = Path(os.environ.get("VERIF_EVIDENCE_DIR", ROOT / "evidence"))
+REPLAYS = Path(os.environ.get("VERIF_REPLAYS", ROOT / "replays"))
 KF_FILE = ROOT / "known_findings.jsonl"
 
 EXIT_OK, EXIT_VIOLATION, EXIT_HARNESS = 0, 1, 3
@@ -89,6 +93,11 @@ class Report:
         cov["known_finding_hits"] = {k: v["count"] for k, v in self.known_hits.items()}
         cov["solver_seconds"] = round(self.solver_seconds, 3)
         cov["harness_errors"] = self.harness_errors[:10]
+        try:
+            import func_adl_xAOD
+            cov["code_under_check"] = str(Path(func_adl_xAOD.__file__).resolve().parent)
+        except Exception:  # noqa: BLE001
+            cov["code_under_check"] = REPO
         if self.samples and "samples" not in cov:
             cov["samples"] = self.samples[:12]
         ev = {
